@@ -116,10 +116,12 @@ func (exec *Executor) execAnyNode(
 	found *valueList,
 ) (resultStatus, error) {
 	next := node.Next()
+	res := statusNotFound
 	// first try without any intermediate steps
 	if node.First() == 0 {
 		defer exec.tempSetIgnoreStructuralErrors(true)()
-		res, err := exec.executeNextItem(ctx, node, next, value, found)
+		var err error
+		res, err = exec.executeNextItem(ctx, node, next, value, found)
 		if err != nil || (res == statusOK && found == nil) {
 			return res, err
 		}
@@ -138,7 +140,9 @@ func (exec *Executor) execAnyNode(
 		)
 	}
 
-	return statusNotFound, nil
+	// A scalar has nothing below it: the outcome is that of the item itself,
+	// including a failure whose error was suppressed.
+	return res, nil
 }
 
 // collection converts v into a slice of values if it's either a map or a
